@@ -550,4 +550,74 @@ theorem U2 (cfg : Config S) (P₁ P₂ : NodeId → Proto S σ) (x : NodeId)
     ViewEq x (execEv cfg P₁ e w₁) (execEv cfg P₂ e w₂) :=
   (cong_execEv cfg P₁ P₂ hP e e rfl he ⟨hv, hnow, hs₁, hs₂⟩).view
 
+/-! ### protocol state is written only by the node's own callback -/
+
+theorem consumeDraw_pstate (cfg : Config S) (w : World S σ) : (consumeDraw cfg w).2.pstate = w.pstate := by
+  unfold consumeDraw; split <;> rfl
+
+theorem transmit_pstate (cfg : Config S) (src dst : NodeId) (msg : String) (w : World S σ) :
+    (transmit cfg src dst msg w).pstate = w.pstate := by
+  unfold transmit
+  simp only
+  split
+  · exact consumeDraw_pstate cfg w
+  · exact consumeDraw_pstate cfg w
+
+theorem broadcastTo_pstate (cfg : Config S) (src : NodeId) (msg : String) (dsts : List NodeId)
+    (w : World S σ) : (broadcastTo cfg src msg dsts w).pstate = w.pstate := by
+  unfold broadcastTo
+  apply foldl_frame (·.pstate)
+  intro w d
+  split
+  · rfl
+  · exact transmit_pstate _ _ _ _ _
+
+theorem execReq_pstate (cfg : Config S) (n : NodeId) (r : Request S) (w : World S σ) :
+    (execReq cfg n r w).1.pstate = w.pstate := by
+  cases r with
+  | setTimer name at_ =>
+    simp only [execReq]
+    split
+    · rfl
+    · split <;> rfl
+  | cancelTimer name => simp only [execReq]; split <;> rfl
+  | send msg dst =>
+    simp only [execReq]
+    split
+    · rfl
+    · split
+      · rfl
+      · split
+        · rfl
+        · split
+          · rfl
+          · exact transmit_pstate _ _ _ _ _
+  | broadcast msg =>
+    simp only [execReq]
+    split
+    · rfl
+    · exact broadcastTo_pstate _ _ _ _ _
+  | goto p => simp only [execReq]; split <;> rfl
+  | gotoGeo p => simp only [execReq]; split <;> rfl
+  | setSpeed v => simp only [execReq]; split <;> rfl
+  | setRange r =>
+    simp only [execReq]
+    split
+    · rfl
+    · split <;> rfl
+
+theorem runProg_pstate (cfg : Config S) (n : NodeId) (p : Prog S σ) (w : World S σ) :
+    (runProg cfg n p w).1.pstate = w.pstate := by
+  induction p generalizing w with
+  | done s => rfl
+  | req r k ih => simp only [runProg]; rw [ih]; exact execReq_pstate cfg n r w
+
+/-- a callback of node `n` writes the protocol state of `n` only -/
+theorem callback_pstate_other (cfg : Config S) (P : NodeId → Proto S σ) (n : NodeId) (cb : Callback S)
+    (w : World S σ) {m : NodeId} (hm : m ≠ n) : (callback cfg P n cb w).pstate m = w.pstate m := by
+  rw [callback_eq]
+  show upd _ n _ m = _
+  rw [upd_ne _ _ _ hm, runProg_pstate]
+  rfl
+
 end Sim
